@@ -322,6 +322,12 @@ theorem parseValue_num (fuel : Nat) (i : Int) (rest : List Char) (hi : intInRang
   · obtain ⟨h1, _, _, h4, h5, h6, h7, h8, h9⟩ := digit_facts c hc
     simp [parseValue, skipWs, h1, h4, h5, h6, h7, h8, h9, hc, hnum]
 
+theorem collectKeys_some (kvs : List (String × Json)) :
+    collectKeys (kvs.map (fun kv => (some kv.1, kv.2))) = some kvs := by
+  induction kvs with
+  | nil => rfl
+  | cons kv t ih => obtain ⟨k, v⟩ := kv; simp [collectKeys, ih]
+
 mutual
 theorem parseValue_render (j : Json) (fuel : Nat) (rest : List Char) (hp : Printable j)
     (hf : need j ≤ fuel) (hr : numEnd rest) :
@@ -359,7 +365,7 @@ theorem parseValue_render (j : Json) (fuel : Nat) (rest : List Char) (hp : Print
     have hms := parseMembers_render kvs f rest hpx.2 hfx.2
     simp only [render, renderStr, List.cons_append, List.append_assoc, List.nil_append] at hm ⊢
     rw [parseValue]
-    simp [skipWs, isWs, hm, hms]
+    simp [skipWs, isWs, hm, hms, objOfMembers, collectKeys, collectKeys_some]
   | .null, 0 | .bool _, 0 | .num _, 0 | .str _, 0 | .arr _, 0 | .obj _, 0 =>
     cases j <;> simp [need] at hf
 theorem parseElems_render (xs : List Json) (fuel : Nat) (rest : List Char) (hp : PrintableList xs)
@@ -380,7 +386,7 @@ theorem parseElems_render (xs : List Json) (fuel : Nat) (rest : List Char) (hp :
   | _ :: _, 0 => simp [needList] at hf
 theorem parseMember_render (k : String) (v : Json) (fuel : Nat) (rest : List Char) (hp : Printable v)
     (hf : 1 + need v ≤ fuel) (hr : numEnd rest) :
-    parseMember fuel (renderStr k ++ ':' :: render v ++ rest) = some ((k, v), rest) := by
+    parseMember fuel (renderStr k ++ ':' :: render v ++ rest) = some ((some k, v), rest) := by
   match fuel with
   | f + 1 =>
     have hv := parseValue_render v f rest hp (by omega) hr
@@ -391,7 +397,8 @@ theorem parseMember_render (k : String) (v : Json) (fuel : Nat) (rest : List Cha
   | 0 => omega
 theorem parseMembers_render (kvs : List (String × Json)) (fuel : Nat) (rest : List Char)
     (hp : PrintableFields kvs) (hf : needFields kvs ≤ fuel) :
-    parseMembers fuel (renderMembers kvs ++ rest) = some (kvs, rest) := by
+    parseMembers fuel (renderMembers kvs ++ rest)
+      = some (kvs.map (fun kv => (some kv.1, kv.2)), rest) := by
   match kvs, fuel with
   | [], f + 1 => simp [renderMembers, parseMembers, skipWs, isWs]
   | (k, v) :: t, f + 1 =>
